@@ -58,10 +58,23 @@ MANIFEST = {
             "agent setting with each falsy value its schema accepts, without and with the competing sources. The node keys "
             "revealed_to_red / start_up_countdown / shut_down_countdown / is_resetting are part of build = declared (NodeFlags; "
             "node-state family on all seven node types incl. transitional states with countdowns). Variants are also compared by "
-            "canonical describe_state(); outside the Lean model, as declared-vs-built oracles only: custom observation-space component "
-            "labels, shared-reward wiring and reward calculation order. Tie: Gen/Config.lean (site inventory; constants; system-software, firewall-ACL, frequency tables; "
+            "canonical describe_state(). THE OTHER LOADERS (round 7, second shift): every keyword argument that Router / Firewall / "
+            "WirelessRouter.from_config (and the NIC(..) call of PrimaiteGame.from_config) read from a mapping of the file - ACL action, "
+            "ports, protocol, both address spellings, wildcard masks, port addresses and masks, route address / mask / next hop / metric - "
+            "is TRANSLATED (Gen kwargTable, one row per distinct expression, walrus / IfExp / or / in / lookup tables as opaque functions) "
+            "and proved equal to kwSpec for every value of the keys and every lookup table (C20_gen_kwargs_resolve): an ACL address is the "
+            "first declared spelling (src_ip, whatever its value) else the documented one (src_ip_address) else None in ALL eight ACL loops "
+            "(C20_acl_address_first_declared_spelling; C20_acl_address_or_rewrite_differs); this semantic tie REPLACES the text pin of "
+            "the address expressions. The rig evaluates the same translated expressions against kwSpec (counter-model -> scenario) and "
+            "runs both spellings x {absent, null, address} through the real loader on every ACL of every router-like node type. Outside "
+            "the Lean model, as declared-vs-built oracles only: custom observation-space component labels, shared-reward wiring INCLUDING "
+            "whose reward each component yields (sentinel rewards), reward calculation order, agent settings the file leaves out = the "
+            "schema defaults read off the source by ast; software right after loading: every kill-chain stage is the class's initial "
+            "member and the software states do not depend on the random generators (six generator states) - this is what found "
+            "F-C20r7b-1/2 (a configured dos-bot executed its attack loop, random port-scan trial included, while the scenario was "
+            "loaded; fixed). Tie: Gen/Config.lean (site inventory; constants; system-software, firewall-ACL, frequency tables; "
             "assignment table and constructor chains of every software class; every key of the defaults section with the statement "
-            "that applies it; the keys the eight ACL rule loops read (both address spellings, each wildcard mask from its own key); "
+            "that applies it; the number of ACL rule loops per loader (what they read is translated, see above); "
             "wireless-router ports and sections; scheduler shape and freshness; no loader consumes its argument; install/uninstall "
             "shape; office-lan constants and wiring calls) + rig R-cfg: generated families, software-matrix scenarios, `enrich`ed "
             "scenarios (defaults, wireless router + airspace, node set with a cross link, documented ACL keys, bandwidth 0) and EVERY "
@@ -70,7 +83,8 @@ MANIFEST = {
             "AND spec; second build from the same mapping; environments from a user-held mapping; schedule directories used as reset() "
             "uses them; permuted / reversed / re-serialised / aliased / merge-key / commented / quoted-integer files; per KIND of integer "
             "site a quoted-integer variant must build the identical simulation or be refused loudly. PARTIAL: observation-space "
-            "construction and reward sharing are outside the model; pydantic's coercions are trusted; after reset() every node is "
+            "construction, reward sharing and agent-setting defaults are oracles outside the Lean model; the software `configure` request paths "
+            "and Switch / host constructors are not sliced (they resolve nothing from two sources: schema fields only); pydantic's coercions are trusted; after reset() every node is "
             "powered on (F-31, not claimed: states are compared at load time).",
     "note": "C20-specific: WellFormed asks for unique hostnames over nodes AND node-set nodes, unique option keys, registered "
             "frequencies, valid node sets; the spec theorem additionally asks that network_interfaces keys are the NIC numbers 2..m+1. "
@@ -198,6 +212,36 @@ def check_scenario(cfg: Dict, model_out: Optional[Tuple[str, str]], twice: bool 
                 oi, od = [l for l in inv if l not in sp], [l for l in sp if l not in inv]
                 fails.append(dict(_classify(oi, od), kind="spec-vs-built", only_impl=oi[:6], only_spec=od[:6]))
     return fails, inv
+
+
+def has_red_application(cfg: Dict) -> bool:
+    return any(a.get("type") in R.RED_APPLICATIONS for n in (cfg.get("simulation", {}).get("network", {}).get("nodes") or [])
+               for a in (n.get("applications") or []))
+
+
+def check_load_rng_independent(cfg: Dict, seeds=(11, 12, 13, 14, 15, 16)) -> List[dict]:
+    """"each in its declared initial state WHEN THE SCENARIO IS LOADED": the state of every piece of software right after loading is
+    a function of the file, not of the random generators - the same file loaded under different generator states (Python's and
+    numpy's) gives the same software states. (Agents may draw their schedule; the SIMULATION may not be built by a draw.)"""
+    import random as _random
+
+    import numpy as _np
+    seen: Dict[str, Dict[str, str]] = {}
+    for sd in seeds:
+        _random.seed(sd)
+        _np.random.seed(sd)
+        game, f = _load(cfg)
+        if f:
+            return []
+        seen[sd] = R.software_states(game)
+    first = seen[seeds[0]]
+    differing = sorted({k for sd in seeds[1:] for k in first if seen[sd].get(k) != first[k]})
+    if not differing:
+        return []
+    k = differing[0]
+    other = next(sd for sd in seeds[1:] if seen[sd].get(k) != first[k])
+    return [{"kind": "load-depends-on-random-generator", "item": ",".join(sorted({d.split(":")[1] for d in differing})),
+             "software": differing[:4], "seeds": [seeds[0], other], "states": [first[k][:300], seen[other].get(k, "")[:300]]}]
 
 
 STATE_TOKENS = re.compile(r" (wired|en|st|h|flags)=\S+|^(node \S+ \S+) \S+")
@@ -554,6 +598,8 @@ def replay(rec: dict) -> bool:
         fails = check_variants(cfg, inv, Rng(1), rp.get("digest_steps", 0), 3, rp.get("formats"))
     if not fails and inv is not None and rp.get("env"):
         fails = check_env_twice(cfg, inv)[0]
+    if not fails and inv is not None and has_red_application(cfg):
+        fails = check_load_rng_independent(cfg)
     return not fails
 
 
@@ -697,6 +743,34 @@ def run(ctx: Ctx):
         cases.append((nm, F.place(n, o, d), 0))
         meta_of[nm] = {"site": n, "own": F._tag(o), "dflt": F._tag(d), "translated": repr(g), "specified": repr(w)}
         ctx.count("counter-model:" + n)
+    # 5b. the other loaders (Router / Firewall / WirelessRouter.from_config): every keyword argument read from the file is translated
+    #     (Gen kwargTable, C20_gen_kwargs_resolve); the same expressions evaluated against `kwSpec` on the value grid give the
+    #     counter-models, and both spellings of an ACL address x {absent, null, an address} go through the real loader on every ACL
+    try:
+        kcms = F.kw_counter_models()
+        kcm_detail = "; ".join(f"{r['function']} {r['callee']}({r['keyword']}=): {r['own_key']}={F._tag(o)} {r['alt_key'] or '-'}={F._tag(a)} -> "
+                               f"loader expression gives {g!r}, declared meaning {w!r}" for r, o, a, g, w in kcms[:4])
+    except Exception as e:
+        kcms, kcm_detail = [], f"translation not available ({type(e).__name__}: {str(e)[:160]})"
+        ctx.count("kw-counter-models:translation-not-available")
+        ctx.oblige("extract:every keyword argument of the router-like loaders that reads the file is translatable", "extractor", False, kcm_detail)
+    ctx.oblige("rig:the regenerated translation of every keyword argument of Router / Firewall / WirelessRouter.from_config meets kwSpec on the value grid",
+               "correspondence", not kcms, kcm_detail)
+    for r, o, a, g, w in kcms:
+        for j, c in enumerate(F.place_kw(r, o, a) or []):
+            nm = f"kw-counter-model:{r['function']}:{r['keyword']}:{j}:own={F._tag(o)}:alt={F._tag(a)}"
+            if nm not in meta_of:
+                cases.append((nm, c, 0))
+                meta_of[nm] = {"site": f"kw:{r['function']}:{r['keyword']}", "own": F._tag(o), "dflt": F._tag(a), "translated": repr(g), "specified": repr(w)}
+                ctx.count("kw-counter-model:" + r["keyword"])
+    srng = ctx.rng.fork("acl-spelling")
+    for nm, cfg, meta in F.acl_spelling_grid():
+        if ctx.thorough or srng.chance(1, 3):
+            cases.append((nm, cfg, 0))
+            meta_of[nm] = meta
+    for nm, cfg, meta in F.load_state_cases():
+        cases.append((nm, cfg, 0))
+        meta_of[nm] = meta
     fam = F.two_source_grid()
     sf = F.schema_falsy_cases() + F.node_state_cases() + F.agent_settings_cases(ctx.rng.fork("falsy-agents"))
     if not ctx.thorough:   # quick: the two-source grid in full, the schema-driven family thinned (every option still appears over seeds)
@@ -729,6 +803,7 @@ def run(ctx: Ctx):
     # implementation side
     agree = modelled = 0
     env_budget = ctx.scale(6, 50)
+    rng_budget = ctx.scale(6, 60)
     f31_total = 0
     for idx, (name, cfg, steps) in enumerate(cases):
         kind = name.split(":")[0]
@@ -739,9 +814,15 @@ def run(ctx: Ctx):
             mo = (out[st + ln - 3], out[st + ln - 2], out[st + ln - 1])
             modelled += 1
             ctx.cov["traces_validated_against_impl"] += 1
-        family = kind in ("two-source", "falsy", "counter-model")
+        family = kind in ("two-source", "falsy", "counter-model", "kw-counter-model", "acl-spelling", "load-state")
         small = (kind in ("gen", "matrix", "corpus") or not name.startswith(("shipped:uc7", "scheduled:uc7"))) and not family
         fails, inv = check_scenario(cfg, mo, twice=small or (ctx.thorough and not family), ctx=ctx)
+        if inv is not None and has_red_application(cfg) and (kind == "load-state" or (rng_budget > 0 and kind in ("gen", "matrix", "corpus"))):
+            if kind != "load-state":
+                rng_budget -= 1
+            fails += check_load_rng_independent(cfg)
+            ctx.count("load-under-six-generator-states")
+            ctx.cov["evaluations"] += 6
         if family:
             ctx.cov["evaluations"] += 1
             m = meta_of.get(name, {})
